@@ -619,8 +619,18 @@ def rule_r6(ctx) -> List[R.Inst]:
                     return "V_" + t[len(v) + 1:].replace(".", "_")
             return None
         sp = sym.parse(spec.replace("V.", "V_").replace(".", "_"))
-        if sym.canon(lc.elt, leaf).same(sp) and unparse(lc.generators[0].iter).replace('"', "'") == "df['snap']":
+        it_ = lc.generators[0].iter
+        if isinstance(it_, ast.Name):
+            ds_ = local_defs(fn.node, it_.id)
+            it_ = ds_[0] if len(ds_) == 1 else it_
+        it_txt = unparse(it_).replace('"', "'")
+        src_ok = it_txt in ("df['snap']", "df.pop('snap')", "df.snap", "df['snap'].tolist()", "df['snap'].to_list()")
+        if sym.canon(lc.elt, leaf).same(sp) and src_ok:
             insts.append(R.ok(rid, key, file, cols[c].lineno, idiom=f"{c} = {spec.replace('V', 'snap')}"))
+        elif sym.canon(lc.elt, leaf).same(sp):
+            insts.append(R.undec(rid, key, file, cols[c].lineno, f"'{c}' has the right formula, but over '{it_txt[:50]}', which is not followed back to the snap column"))
+        elif not src_ok:
+            insts.append(R.undec(rid, key, file, cols[c].lineno, f"'{c}' is computed as '{unparse(lc.elt)[:50]}' over '{it_txt[:40]}': not read"))
         else:
             insts.append(R.viol(rid, key, file, cols[c].lineno,
                                 f"'{c}' must be {spec.replace('V', 'snap')} (position in the measure = beat / beats-per-measure)",
